@@ -9,7 +9,7 @@ P = {
     "rule": "four generators: (a) ztoyn/ytozn on n = 1..8 matrices A = P*D*Q (Q well conditioned, optional column grading, D = 2^k with k in [-26,26], P a row permutation) and exactly singular variants (duplicate row, row = 2x another, zero row/column); (b) vnacal_apply with a/b whose columns are scaled by 2^k, and exactly singular a; (c) exactly determined 1x1 / 2x2 solves with a duplicated standard or an unmeasured port; (d) noisy over-determined T16 against the reference minimiser; non-trivial = row scaling changes the condition number by >= 1e6, any exactly singular case, any (b),(c),(d) case; distinct = distinct choice tapes; (e) row-scaled over-determined solve: T8/U8/T16/U16 1x1..2x2, a determining set (kappa <= 1e3) plus one consistent standard with S larger by 1e2..1e8 at a random position, exact data; the saved error terms (independent reader) must satisfy the documented equations of every standard with a normwise backward error <= 1e3 eps; the device's forward error is tracked; (a2) division residual: vnaconv_ztosn with uniform real z0, W = Z + z0 I with prescribed condition number 1..1e10 (graded upwards), |S W - (Z - z0 I)| <= 1e3 n eps (|S||W| + |Z - z0 I|)",
     "assumptions": COMMON_ASSUME + ["numerically (not exactly) rank-deficient systems are not asserted", "bounds: 300*n*eps*kappa_equil for inverses (largest ratio tracked in the evidence)"],
     "tiers": tiers(
-        quick=[{"name": "rand", "mode": "run", "count": 20000, "max_size": 60, "shards": 12, "max_seconds": 70}],
+        quick=[{"name": "rand", "mode": "run", "count": 40000, "max_size": 60, "shards": 16, "max_seconds": 70}],
         thorough=[{"name": "rand", "mode": "run", "count": 1000000, "max_size": 100, "shards": 16, "max_seconds": 1500}],
     ),
 }
